@@ -6,7 +6,9 @@ import SoxrModel.Vr.Generated
 Control in `vr32.c` is data-independent: the 32.32 clock `at`, the increment `step`, the slew increment `step_step`,
 `slew_len`, which octave stage feeds the interpolator, both kinds of fade, every FIFO occupancy and the number of
 frames delivered depend on lengths and ratios only, never on sample values.  This file is that integer skeleton, *as
-written* (including the pinned tree's defect F13, see `Cfg.fixF13`), with the sample kernels left out.  It is executed
+written*, with the sample kernels left out.  (History: until the `fix:` commits for F13 and F14 the immediate branch of
+`vr_set_io_ratio` left `slew_len`, `step_step`, `new_io_ratio` alone, and `lshift` shifted negative values left; the
+pre-repair `vr_set_io_ratio` survives only as `C16.Historical.setIoRatioPre` in `Properties/C16.lean`.)  It is executed
 (driver `soxr_vr`; the harness compares every field of `rate_t` after every call) and reasoned about
 (`Vr/Lemmas.lean`, `Properties/C16.lean`).
 
@@ -41,8 +43,9 @@ def FRAC (a : Int) : Int := a % two32
 def shiftr (x by_ : Int) : Int := if by_ < 0 then x * 2 ^ (-by_).toNat else x / 2 ^ by_.toNat
 /-- `shiftl(x,by)` = `shiftr(x,-by)`. -/
 def shiftl (x by_ : Int) : Int := shiftr x (-by_)
-/-- `lshift(x,by)`: `by > 0 ? x << by : x >> -by`.  (`x << by` of a negative `x` is undefined in C — F14 — and is a
-    multiplication on every supported compiler; the model multiplies.) -/
+/-- `lshift(x,by)`: `by > 0 ? (int64_t)((uint64_t)x << by) : x >> -by` — the left shift is done on the unsigned
+    representation (repair of F14), which is multiplication by `2^by` as long as the result fits 64 bits
+    (`Vr/Arith.lean`: `lshiftC_eq_lshift`); the model multiplies. -/
 def lshift (x by_ : Int) : Int := if by_ > 0 then x * 2 ^ by_.toNat else x / 2 ^ (-by_).toNat
 
 /-- `stream_t` without the data pointer. -/
@@ -94,13 +97,6 @@ structure Num (ρ : Type) where
 
 structure Cfg (ρ : Type) where
   num : Num ρ
-  /-- `false`: `vr_set_io_ratio` as in the pinned tree (an immediate change leaves `slew_len`, `step_step`,
-      `new_io_ratio` alone: F13).  `true`: the candidate repair `work/vr/fix-F13.diff` (the three are cleared). -/
-  fixF13 : Bool := false
-
-/-- THE ONE-LINE SWITCH: which `vr_set_io_ratio` the driver (and so the correspondence) follows.  Set to `true` when
-    `work/vr/fix-F13.diff` is committed to /repo. -/
-def pinnedFixF13 : Bool := false
 
 variable {ρ : Type}
 
@@ -142,7 +138,8 @@ def slewInc (target step : Int) (slew : Nat) : Int :=
 def setSS (cfg : Cfg ρ) (p : Stream) (r : ρ) (slew : Nat) : Stream :=
   { p with ss := slewInc (cfg.num.stepOf r p.mult) p.step slew }
 
-/-- `vr_set_io_ratio` (`slew < 2^31`: the C code casts to `int`). -/
+/-- `vr_set_io_ratio` (`slew < 2^31`: the C code casts to `int`).  The immediate branch first cancels whatever slew is
+    in progress (`slew_len = 0, new_io_ratio = 0`, both `step_step`s `= 0`). -/
 def setIoRatio (cfg : Cfg ρ) (s : St ρ) (r : ρ) (slew : Nat) : St ρ :=
   if slew ≠ 0 then
     let c := setSS cfg s.cur r slew
@@ -153,6 +150,7 @@ def setIoRatio (cfg : Cfg ρ) (s : St ρ) (r : ρ) (slew : Nat) : St ρ :=
       if s.fade ≠ 0 then { s1 with fo := setSS cfg s.fo r slew } else s1
   else
     let first := s.defR.isSome
+    let s := { s with slew := 0, newR := none, cur := { s.cur with ss := 0 }, fo := { s.fo with ss := 0 } }
     let s1 :=
       if first then
         let oct := cfg.num.octave r
@@ -162,10 +160,7 @@ def setIoRatio (cfg : Cfg ρ) (s : St ρ) (r : ρ) (slew : Nat) : St ρ :=
       else s
     let c := setStep cfg s1.cur r
     let c := if first then { c with clk := INT c.clk * two32 + FRAC c.step / 2 } else c
-    let s2 := { s1 with cur := c, defR := none }
-    if cfg.fixF13 then
-      { s2 with slew := 0, newR := none, cur := { s2.cur with ss := 0 }, fo := { s2.fo with ss := 0 } }
-    else s2
+    { s1 with cur := c, defR := none }
 
 /-- `len` of `do_input_stage`: what the neighbour's FIFO allows minus what is already there. -/
 def doInputLen (s : St ρ) (sn sign : Int) : Int :=
@@ -342,7 +337,7 @@ structure LoopSt (ρ : Type) where
   nsw : Nat := 0  -- ghost: stage switches taken
   nmis : Nat := 0 -- ghost: chunks in which the two cross-faded streams produced different amounts
   nneg : Nat := 0 -- ghost: chunks that ended with a negative `step` or clock (the read position runs backwards)
-  nshl : Nat := 0 -- ghost: stage switches that left-shift a negative value (undefined behaviour in C: F14)
+  nshl : Nat := 0 -- ghost: stage switches that left-shift a negative value (F14: undefined behaviour in C before the repair)
 
 /-- does this chunk switch stages?  (`stage_dif` and `n < p->num_stages`) -/
 def doesSwitch (s : St ρ) : Bool := decide (stageDif s ≠ 0 ∧ s.cur.sn + stageDif s < s.ns)
@@ -355,8 +350,9 @@ def chunkMx (l : LoopSt ρ) (dif : Int) (fits : Bool) : Int :=
   let mx1 := if dif = 1 then l.mx + 1 else l.mx
   if dif ≠ 0 ∧ fits = false then mx1 - 1 else mx1
 
-/-- a stream whose `step` or clock has gone negative reads backwards, eventually before its FIFO (only reachable
-    through F13: a stale `step_step` applied to a much smaller `step`) -/
+/-- a stream whose `step` or clock has gone negative reads backwards, eventually before its FIFO.  (Before the repair
+    of F13 a stale `step_step` applied to a much smaller `step` drove `step` negative; what is left is the fade-out
+    clock falling a sample behind when the two cross-faded streams get out of step, `nmis`.) -/
 def backwards (s : St ρ) : Bool :=
   decide (s.cur.step < 0 ∨ s.cur.clk < 0 ∨ (s.fade ≠ 0 ∧ (s.fo.step < 0 ∨ s.fo.clk < 0)))
 
